@@ -16,7 +16,7 @@ from vf.core import Sub
 PROP = "C15"
 TECHNIQUE = "property-based testing: reference slicing of known WAV file contents (PCM-16/24/32, float, double) (exact equality) for load_clip / load_recording + axis invariants (strictly increasing, start, agreement with the advertised step within one step) for load_recording, load_clip, resample and compute_spectrogram"
 LEVEL_TEXT = (
-    "WAV files (PCM-16 mostly, also PCM-24/32, FLOAT, DOUBLE) holding a deterministic 16-bit integer ramp (every frame distinct, exactly representable in each subtype) are written by the check for 21 sample rates x 1-3 channels; clips are "
+    "WAV files (PCM-16 mostly, also PCM-24/32, FLOAT, DOUBLE) holding a deterministic 16-bit integer ramp (every frame distinct, exactly representable in each subtype; float files also with gain 1.75 or 4, i.e. samples beyond full scale) are written by the check for 21 sample rates x 1-3 channels; clips are "
     "generated on and off sample boundaries, of zero length, ending at, straddling and starting at the end of file, with time-expansion factors {0.5,1,2,5,10}; "
     "load_clip must return exactly floor(duration x samplerate) frames equal to the file frames from floor(start x samplerate) on, zero-filled past the end, "
     "with time (offset+i)/samplerate, identical to the same rows of load_recording. Every array produced by load_recording, load_clip, resample (non-integer "
@@ -46,19 +46,21 @@ MAX_ELEMENTS = 6_000_000  # per derived array (harness memory budget: 16 workers
 SUBTYPES = ["PCM_16", "PCM_24", "PCM_32", "FLOAT", "DOUBLE"]  # every one of them stores the 16-bit test signal exactly
 
 
-def wav(rate, channels, frames, subtype="PCM_16"):
+def wav(rate, channels, frames, subtype="PCM_16", gain=1.0):
     import soundfile as sf
 
-    key = (rate, channels, frames, subtype)
+    if subtype.startswith("PCM"):
+        gain = 1.0  # only float files can hold samples beyond full scale (head-room, applied gain)
+    key = (rate, channels, frames, subtype, gain)
     if key not in _FILES:
         d = os.path.join(scratch(), "wav")
         os.makedirs(d, exist_ok=True)
-        path = os.path.join(d, f"r{rate}_c{channels}_n{frames}_{subtype}.wav")
+        path = os.path.join(d, f"r{rate}_c{channels}_n{frames}_{subtype}_g{gain}.wav")
         i = np.arange(frames, dtype=np.int64)[:, None]
         c = np.arange(channels, dtype=np.int64)[None, :]
         data = (((i * 7 + c * 4099 + 11) % 65536) - 32768).astype(np.int16)
-        sf.write(path, data if subtype.startswith("PCM") else data.astype(np.float64) / 32768.0, rate, subtype=subtype)
-        _FILES[key] = (path, data.astype(np.float64) / 32768.0)
+        sf.write(path, data if subtype.startswith("PCM") else data.astype(np.float64) / 32768.0 * gain, rate, subtype=subtype)
+        _FILES[key] = (path, data.astype(np.float64) / 32768.0 * gain)
         if len(_FILES) > 40:
             _FILES.pop(next(iter(_FILES)))
     return _FILES[key]
@@ -71,16 +73,16 @@ def rec_spec(draw, max_frames=20000):
     if float(int(rate * te)) != rate * te:
         te = 1.0
     return {"rate": rate, "channels": draw(st.integers(1, 3)), "frames": draw(st.sampled_from([100, 1000, 4410, max_frames, max_frames, 777])), "te": te,
-            "subtype": draw(st.sampled_from(["PCM_16", "PCM_16", "PCM_16"] + SUBTYPES))}
+            "subtype": draw(st.sampled_from(["PCM_16", "PCM_16", "PCM_16"] + SUBTYPES)), "gain": draw(st.sampled_from([1.0, 1.75, 4.0]))}
 
 
 def recording(rs):
     from soundevent import data
 
-    if rs["rate"] not in RATES or rs["frames"] < 100 or rs["frames"] > 200000 or rs["channels"] < 1 or rs["te"] not in (0.5, 1.0, 2.0, 5.0, 10.0) or rs.get("subtype", "PCM_16") not in SUBTYPES:
+    if rs["rate"] not in RATES or rs["frames"] < 100 or rs["frames"] > 200000 or rs["channels"] < 1 or rs["te"] not in (0.5, 1.0, 2.0, 5.0, 10.0) or rs.get("subtype", "PCM_16") not in SUBTYPES or rs.get("gain", 1.0) not in (1.0, 1.75, 4.0):
         raise ValueError("malformed spec")
 
-    path, frames = wav(rs["rate"], rs["channels"], rs["frames"], rs.get("subtype", "PCM_16"))
+    path, frames = wav(rs["rate"], rs["channels"], rs["frames"], rs.get("subtype", "PCM_16"), rs.get("gain", 1.0))
     sr = int(rs["rate"] * rs["te"])
     rec = data.Recording(uuid=str(uuidlib.UUID(int=1)), path=path, duration=rs["frames"] / sr, channels=rs["channels"], samplerate=sr, time_expansion=rs["te"])
     return rec, frames, sr
